@@ -57,6 +57,13 @@ def cq_world(w):
     return cluster, secrets, appols, logconfs, bundles
 
 
+def spiffe_in(c):
+    """the resource is an internal route of NGINX Service Mesh (controller flag and resource field both set)"""
+    w = c["world"]
+    res = w.get("vs") or w.get("ing") or {}
+    return bool(w.get("internal_routes") and res.get("internal_route"))
+
+
 def cq_tls(on, name):
     return "(Some %s)" % S(name) if on else "None"
 
@@ -77,7 +84,7 @@ def vs_to_coq(c, fname):
     return "vs_case %d %s %s %s %s %s %s %s %s %s %s %s %s %s %s %s" % (
         c["id"], S(w.get("class")), cluster, secrets, appols, logconfs, bundles, cq_tls(vs["tls"], vs.get("tls_secret")),
         C.cq_bool(w.get("wildcard", False)), v, S(vs["host"]), obs, C.cq_bool(ssl.get("present", False)),
-        C.cq_bool(ssl.get("reject", False)), S(ssl.get("cert")), fname)
+        C.cq_bool(ssl.get("reject", False)), S(ssl.get("cert")), C.cq_bool(spiffe_in(c)), fname)
 
 
 def ing_to_coq(c, fname):
@@ -92,7 +99,8 @@ def ing_to_coq(c, fname):
         c["id"], secrets, S(ing["ns"]), S(ing["host"]), cq_tls(ing["tls"], ing.get("tls_secret")), C.cq_bool(w.get("wildcard", False)),
         opt(bool(ing.get("jwt_key")), ing.get("jwt_key")), opt(bool(ing.get("basic")), ing.get("basic")),
         L([S("/m")] if where != "server" else []), C.cq_bool(ssl.get("present", False)), C.cq_bool(ssl.get("reject", False)),
-        S(ssl.get("cert")), opt(a.get("jwt", False), a.get("key")), opt(a.get("basic", False), a.get("file")), fname)
+        S(ssl.get("cert")), opt(a.get("jwt", False), a.get("key")), opt(a.get("basic", False), a.get("file")),
+        C.cq_bool(spiffe_in(c)), fname)
 
 
 def usable_case(c):
@@ -173,6 +181,24 @@ def judge(run, cases, rows, verbose=False):
                             "a product case was rejected by the real validation, so the product is not covered (case %d, %s)" % (c["id"], json.dumps(c.get("gen"))),
                             theorem="correspondence harness c08", found_input=False)
             continue
+        if c["class"] == "history":
+            ev = c.get("event") or {}
+            if not o.get("pre_open"):
+                run.failing({"kind": "generator", "class": "history"}, [slim(c)],
+                            "history case %d: the resource was not served normally BEFORE the event, so the history shows nothing (%s)" % (c["id"], json.dumps(c.get("gen"))),
+                            theorem="correspondence harness c08", found_input=False)
+                continue
+            run.cov["history_events"] = run.cov.get("history_events", 0) + 1
+            if o.get("stale"):
+                run.failing({"kind": "live-config-stale", "dep": ev.get("dep"), "op": (ev.get("op") or "").split(":")[0]}, [slim(c)],
+                            "after the %s event on %s %s/%s the configuration NGINX holds differs from what a fresh rendering of the same state gives "
+                            "(case %d, gen=%s, tasks queued by the real handler per event: %s)"
+                            % (ev.get("op"), ev.get("dep"), ev.get("ns"), ev.get("name"), c["id"], json.dumps(c.get("gen")), o.get("queued")),
+                            theorem="history: the real handler + sync function of the dependency must re-render its users", found_input=False)
+        if bool(o.get("spiffe")) != spiffe_in(c):
+            run.failing({"kind": "correspondence", "what": "spiffe"}, [slim(c)],
+                        "case %d: the template data says SpiffeCerts=%s, the inputs say internal route=%s" % (c["id"], o.get("spiffe"), spiffe_in(c)),
+                        theorem="correspondence: SpiffeCerts = internalRoute && -enable-internal-routes", found_input=False)
         row = rows[c["id"]]
         cid, agree, spec, nontrivial, tag = row[:5]
         canon = {"world": {k: v for k, v in c["world"].items()}}
@@ -228,7 +254,7 @@ def judge(run, cases, rows, verbose=False):
                                 % (s["id"], cid, merr, oerr, fa, s.get("flags"), json.dumps(c.get("gen"))),
                                 theorem="correspondence Policies.Model.vs_views ~ GenerateVirtualServerConfig", found_input=False)
             if tls_req and not tls_rej:
-                run.failing({"kind": "tls-not-rejected", "fam": "vs", "mode": (c.get("gen") or {}).get("mode", "?")}, [slim(c)],
+                run.failing({"kind": "tls-not-rejected", "fam": "vs", "internal_route": spiffe_in(c), "mode": (c.get("gen") or {}).get("mode", "?")}, [slim(c)],
                             "VirtualServer host with an unusable TLS secret does not reject handshakes (case %d, impl ssl=%s)" % (cid, o.get("ssl")),
                             theorem="Policies.Spec.tls_rejects on the real output")
             elif not spec and all(not (p[0] and not p[3]) for p in per):
@@ -246,7 +272,7 @@ def judge(run, cases, rows, verbose=False):
                       % (tls_req, tls_rej, tls_agree, auth_req, enforced, auth_agree, o.get("auth")))
             ing = c["world"]["ing"]
             if tls_req and not tls_rej:
-                run.failing({"kind": "tls-not-rejected", "fam": "ing", "mode": (c.get("gen") or {}).get("mode", "?")}, [slim(c)],
+                run.failing({"kind": "tls-not-rejected", "fam": "ing", "internal_route": spiffe_in(c), "mode": (c.get("gen") or {}).get("mode", "?")}, [slim(c)],
                             "Ingress host with an unusable TLS secret does not reject handshakes (case %d, impl ssl=%s)" % (cid, o.get("ssl")),
                             theorem="Policies.Spec.tls_rejects on the real output")
             if (ing.get("jwt_key") or ing.get("basic")) and not enforced:
@@ -301,6 +327,7 @@ def check(run):
         "vs_tls_cases": len([c for c in cases if c["class"] == "vstls"]),
         "ingress_cases": len([c for c in cases if c["class"] == "ing"]),
         "random_cases": len([c for c in cases if c["class"] == "random"]),
+        "history_cases": len([c for c in cases if c["class"] == "history"]),
     }
     for c in [x for x in cases if x["class"] == "product" and x["gen"]["mode"] != "ok"][:1] + [x for x in cases if x["class"] == "ing"][:1] + \
             [x for x in cases if x["class"] == "random"][:1]:
